@@ -147,8 +147,8 @@ func discharge(u *Universe, o *Obligation, dir string, timeoutS int, confirm boo
 		}
 		for _, v := range variants {
 			for si, s := range solvers {
-				if si == 1 {
-					continue // the old z3 only runs the exact encoding
+				if si == 1 && strings.HasPrefix(v.tag, "abs") {
+					continue // the old z3 is weak on the abstracted nonlinear encodings; it runs the others
 				}
 				n++
 				go func(s solverSpec, v variant) {
